@@ -242,7 +242,7 @@ class Concat(Expr):
                 for frame in self._frames
             ]
             if all(
-                sorted(cols) == sorted(get_columns_or_name(frame))
+                cols == get_columns_or_name(frame)
                 for frame, cols in zip(self._frames, columns_frame)
             ):
                 return
@@ -253,7 +253,7 @@ class Concat(Expr):
             frames = [
                 (
                     frame[cols]
-                    if sorted(cols) != sorted(get_columns_or_name(frame))
+                    if cols != get_columns_or_name(frame)
                     and frame.ndim == 2
                     else frame
                 )
